@@ -135,10 +135,11 @@ void xcm_attr_map_add(struct xcm_attr_map *attr_map, const char *attr_name,
 {
     ut_assert(attr_name && attr_value);
 
-    xcm_attr_map_del(attr_map, attr_name);
-
+    /* attr_name or attr_value may point into the entry being replaced */
     struct attr *attr =
 	attr_create(attr_name, attr_type, attr_value, attr_value_len);
+
+    xcm_attr_map_del(attr_map, attr_name);
 
     LIST_INSERT_HEAD(&attr_map->attrs, attr, entry);
 }
